@@ -227,6 +227,15 @@ def prop_identities(case):
         # takes part in is then rank deficient, which is outside the statement of C01 (full column rank)
         raise Discard("a dataset scale optimised to zero: rank-deficient linear problem")
     for d in case["datasets"]:
+        # ... and so does a basis function that underflows after an optimiser step (a zero column in the matrix of any dataset:
+        # through linking the rank deficiency reaches the other datasets of its group)
+        Mall = result.data[d["label"]]["matrix"]
+        mats = Mall.transpose("global", "model", "clp_label").values if "global" in Mall.dims else Mall.transpose("model", "clp_label").values[None]
+        for Mi_ in mats:
+            sv_ = np.linalg.svd(Mi_, compute_uv=False)
+            if sv_[-1] <= 1e-10 * sv_[0] or np.linalg.norm(Mi_, axis=0).min() < 1e-100:
+                raise Discard("rank-deficient matrix at an index")
+    for d in case["datasets"]:
         lab = d["label"]
         ds = result.data[lab]
         raw, _ = schemes.dataset_arrays(d)
